@@ -1,33 +1,127 @@
 ---- MODULE Ptx ----
-(* Hand-written semantics of the PTX subset used by gl64_t.cuh, over integers, parametric in the register
-   modulus Beta = Phi = 2^w (w = 32 on the device).  A .u32 register is a value in 0..Beta-1, a .u64 register a
-   value in 0..T-1 (T = Beta^2), the condition-code carry flag CC.CF and predicates are 0/1.
-   The first argument m of the add/sub family is the modulus of the instruction's type (.u32: Beta, .u64: T).
-     add(.cc)/addc(.cc)   d = AddR(m,x,y,ci)   CF = AddC(m,x,y,ci)      ci = 0 for add, CF for addc
-     sub(.cc)/subc(.cc)   d = SubR(m,x,y,bi)   CF = SubB(m,x,y,bi)      (CF is the borrow)
-     mul.lo/.hi           MulLo / MulHi
-     mad(c).lo(.cc) d,x,y,z = AddR(Beta, MulLo(x,y), z, ci) ...; mad(c).hi likewise with MulHi
-     setp.eq/.ne          SetEq / SetNe;   selp d,x,y,p and every @p-predicated write: Sel(p, new, old)
-     mov.b64 d,{lo,hi}    Pack(lo,hi);     mov.b64 {lo,hi},s: Lo(s), Hi(s)  (GL)
-   C++ glue: lo()/hi() = Lo/Hi, -x on uint32_t = Neg32, (val==0) = IsZ, gl64_device::W = WC, 0-MOD = NegMod.
-   tools/ptx_prims.hpp is the same table in C++ for w = 32. *)
+(* Hand-written semantics of an integer subset of PTX (the trusted base of C20), over integers, parametric in the
+   register modulus Beta = Phi = 2^W (W = 32 on the device).  A 32-bit register (.b32 .u32 .s32) is a value in
+   0..Beta-1, a 64-bit register a value in 0..T-1 (T = Beta^2); registers are untyped bit patterns, a signed
+   instruction reads them through Sx (two's complement).  The condition-code carry flag CC.CF and predicates are 0/1.
+   The first argument m of a width-generic operator is the modulus of the instruction's type (32 bit: Beta, 64: T).
+
+     add(.cc) addc(.cc)          d = AddR(m,x,y,ci)   CF = AddC(m,x,y,ci)     ci = 0 for add, CC.CF for addc
+     sub(.cc) subc(.cc)          d = SubR(m,x,y,bi)   CF = SubB(m,x,y,bi)     CF is the BORROW; subc subtracts it
+     mul.lo / .hi (u) / .hi (s)  MulLo(m,x,y) / MulHi(m,x,y) / MulHiS(m,x,y)
+     mul.wide.u32 / .s32         MulWide(x,y) / MulWideS(x,y)                 32 x 32 -> 64
+     mad(c).lo/.hi(.cc) d,x,y,z  AddR(m, MulLo|MulHi|MulHiS(m,x,y), z, ci), CF = AddC(same arguments)
+     mad.wide.u32/.s32 d,x,y,z   AddR(T, MulWide|MulWideS(x,y), z, 0)
+     setp.CMP.type               eq ne: SetEq SetNe;  lt le gt ge on .u / lo ls hi hs: SetLt SetLe SetGt SetGe;
+                                 lt le gt ge on .s: SetLtS SetLeS SetGtS SetGeS (m, x, y)
+     selp d,x,y,p                Sel(p,x,y);  every @p-predicated write: Sel(p, new, old);  @!p: Sel(NotP(p), new, old)
+     and or xor (.pred .b32 .b64) BAnd BOr BXor;   not.bNN: NotB(m,x);  not.pred: NotP(p);  neg.sNN: Neg(m,x)
+     shl / shr.u,.b / shr.s      Shl(m,x,n) / Shr(m,x,n) / ShrS(m,x,n)   n a 32-bit amount, clamped to the width
+     min max .u / .s             MinU MaxU (x,y) / MinS MaxS (m,x,y)
+     cvt.u64.u32 / .s64.s32 / to 32 bit     ZExt(x) / SExt(x) / Lo(x);  same-size cvt and mov: the value itself
+     mov.b64 d,{lo,hi}           Pack(lo,hi);     mov.b64 {lo,hi},s: Lo(s), Hi(s)  (GL)
+   C++ glue of the header uses the same operators (casts = ZExt/SExt/Lo, -x = Neg, ~x = NotB, comparisons = SetXx).
+   Literals of the source are written by the translator as polynomials in Beta under Lit(m, .), literal shift amounts
+   as multiples of W (32 -> W, 63 -> 2W-1): exact at W = 32, a faithful miniature at small W.
+   tools/ptx_prims.hpp is the same table in C++ for W = 32.  spec/MC_Ptx.tla checks every operator below against its
+   arithmetic definition, exhaustively at small W (run by the check before anything else). *)
 EXTENDS GL
 Beta == Phi
 WC == Beta - 1
 NegMod == T - P
+(* register width in bits; MC_Ptx!InvPow2 / Apa_Gl64!InvPtxW check Pow2(W) = Phi *)
+W == IF Phi = 2 THEN 1 ELSE IF Phi = 4 THEN 2 ELSE IF Phi = 8 THEN 3 ELSE IF Phi = 16 THEN 4 ELSE
+     IF Phi = 32 THEN 5 ELSE IF Phi = 64 THEN 6 ELSE 32
+Bits(m) == IF m = Beta THEN W ELSE 2 * W
+(* 2^n for n <= 64 without a literal that TLC could not parse *)
+Pow2(n) ==
+  IF n <= 0 THEN 1 ELSE
+  IF n = 1 THEN 2 ELSE IF n = 2 THEN 4 ELSE IF n = 3 THEN 8 ELSE IF n = 4 THEN 16 ELSE
+  IF n = 5 THEN 32 ELSE IF n = 6 THEN 64 ELSE IF n = 7 THEN 128 ELSE IF n = 8 THEN 256 ELSE
+  IF n = 9 THEN 512 ELSE IF n = 10 THEN 1024 ELSE IF n = 11 THEN 2048 ELSE IF n = 12 THEN 4096 ELSE
+  IF n = 13 THEN 8192 ELSE IF n = 14 THEN 16384 ELSE IF n = 15 THEN 32768 ELSE IF n = 16 THEN 65536 ELSE
+  IF n = 17 THEN 131072 ELSE IF n = 18 THEN 262144 ELSE IF n = 19 THEN 524288 ELSE IF n = 20 THEN 1048576 ELSE
+  IF n = 21 THEN 2097152 ELSE IF n = 22 THEN 4194304 ELSE IF n = 23 THEN 8388608 ELSE IF n = 24 THEN 16777216 ELSE
+  IF n = 25 THEN 33554432 ELSE IF n = 26 THEN 67108864 ELSE IF n = 27 THEN 134217728 ELSE IF n = 28 THEN 268435456 ELSE
+  IF n = 29 THEN 536870912 ELSE IF n = 30 THEN 1073741824 ELSE IF n = 31 THEN (65536 * 32768) ELSE
+  IF n = 32 THEN (65536 * 65536) ELSE
+  IF n = 33 THEN (65536 * 65536 * 2) ELSE IF n = 34 THEN (65536 * 65536 * 4) ELSE
+  IF n = 35 THEN (65536 * 65536 * 8) ELSE IF n = 36 THEN (65536 * 65536 * 16) ELSE
+  IF n = 37 THEN (65536 * 65536 * 32) ELSE IF n = 38 THEN (65536 * 65536 * 64) ELSE
+  IF n = 39 THEN (65536 * 65536 * 128) ELSE IF n = 40 THEN (65536 * 65536 * 256) ELSE
+  IF n = 41 THEN (65536 * 65536 * 512) ELSE IF n = 42 THEN (65536 * 65536 * 1024) ELSE
+  IF n = 43 THEN (65536 * 65536 * 2048) ELSE IF n = 44 THEN (65536 * 65536 * 4096) ELSE
+  IF n = 45 THEN (65536 * 65536 * 8192) ELSE IF n = 46 THEN (65536 * 65536 * 16384) ELSE
+  IF n = 47 THEN (65536 * 65536 * 32768) ELSE IF n = 48 THEN (65536 * 65536 * 65536) ELSE
+  IF n = 49 THEN (65536 * 65536 * 65536 * 2) ELSE IF n = 50 THEN (65536 * 65536 * 65536 * 4) ELSE
+  IF n = 51 THEN (65536 * 65536 * 65536 * 8) ELSE IF n = 52 THEN (65536 * 65536 * 65536 * 16) ELSE
+  IF n = 53 THEN (65536 * 65536 * 65536 * 32) ELSE IF n = 54 THEN (65536 * 65536 * 65536 * 64) ELSE
+  IF n = 55 THEN (65536 * 65536 * 65536 * 128) ELSE IF n = 56 THEN (65536 * 65536 * 65536 * 256) ELSE
+  IF n = 57 THEN (65536 * 65536 * 65536 * 512) ELSE IF n = 58 THEN (65536 * 65536 * 65536 * 1024) ELSE
+  IF n = 59 THEN (65536 * 65536 * 65536 * 2048) ELSE IF n = 60 THEN (65536 * 65536 * 65536 * 4096) ELSE
+  IF n = 61 THEN (65536 * 65536 * 65536 * 8192) ELSE IF n = 62 THEN (65536 * 65536 * 65536 * 16384) ELSE
+  IF n = 63 THEN (65536 * 65536 * 65536 * 32768) ELSE (65536 * 65536 * 65536 * 65536)
+(* a source literal, written as a polynomial in Beta by the translator, as a register value *)
+Lit(m, x) == x % m
+(* the signed (two's complement) reading of a register *)
+Sx(m, x) == IF x >= (m \div 2) THEN x - m ELSE x
+(* ---- add / sub with carry *)
 AddR(m, x, y, ci) == (x + y + ci) % m
 AddC(m, x, y, ci) == (x + y + ci) \div m
 SubR(m, x, y, bi) == (x - y - bi + (2 * m)) % m
 SubB(m, x, y, bi) == IF x - y - bi < 0 THEN 1 ELSE 0
-MulLo(x, y) == (x * y) % Beta
-MulHi(x, y) == (x * y) \div Beta
-(* the same two halves of a product that is a free symbol (full-width symbolic runs) *)
+(* ---- products *)
+MulLo(m, x, y) == (x * y) % m
+MulHi(m, x, y) == (x * y) \div m
+MulHiS(m, x, y) == (((Sx(m, x) * Sx(m, y)) + (m * m)) \div m) % m
+MulWide(x, y) == x * y
+MulWideS(x, y) == ((Sx(Beta, x) * Sx(Beta, y)) + T) % T
+(* the same parts of a 32 x 32 product that is a free symbol (full-width symbolic runs) *)
 PLo(q) == q % Beta
 PHi(q) == q \div Beta
+PWide(q) == q
+(* ---- comparisons (setp, C++ glue) *)
 SetEq(x, y) == IF x = y THEN 1 ELSE 0
 SetNe(x, y) == IF x = y THEN 0 ELSE 1
+SetLt(x, y) == IF x < y THEN 1 ELSE 0
+SetLe(x, y) == IF x <= y THEN 1 ELSE 0
+SetGt(x, y) == IF x > y THEN 1 ELSE 0
+SetGe(x, y) == IF x >= y THEN 1 ELSE 0
+SetLtS(m, x, y) == SetLt(Sx(m, x), Sx(m, y))
+SetLeS(m, x, y) == SetLe(Sx(m, x), Sx(m, y))
+SetGtS(m, x, y) == SetGt(Sx(m, x), Sx(m, y))
+SetGeS(m, x, y) == SetGe(Sx(m, x), Sx(m, y))
 Sel(p, x, y) == IF p = 1 THEN x ELSE y
+(* ---- logic: o = 0 and, 1 or, 2 xor; bit by bit, by doubling, for operands below T with W <= 32 *)
+B1(o, u, v) == IF o = 0 THEN (IF u = 1 /\ v = 1 THEN 1 ELSE 0)
+               ELSE IF o = 1 THEN (IF u = 1 \/ v = 1 THEN 1 ELSE 0) ELSE (IF u = v THEN 0 ELSE 1)
+B2(o, u, v) == B1(o, u % 2, v % 2) + (2 * B1(o, u \div 2, v \div 2))
+B4(o, u, v) == B2(o, u % 4, v % 4) + (4 * B2(o, u \div 4, v \div 4))
+B8(o, u, v) == B4(o, u % 16, v % 16) + (16 * B4(o, u \div 16, v \div 16))
+B16(o, u, v) == B8(o, u % 256, v % 256) + (256 * B8(o, u \div 256, v \div 256))
+B32(o, u, v) == B16(o, u % 65536, v % 65536) + (65536 * B16(o, u \div 65536, v \div 65536))
+BW(o, u, v) == B32(o, u % Beta, v % Beta) + (Beta * B32(o, u \div Beta, v \div Beta))
+BAnd(x, y) == BW(0, x, y)
+BOr(x, y) == BW(1, x, y)
+BXor(x, y) == BW(2, x, y)
+NotB(m, x) == m - 1 - x
+NotP(p) == 1 - p
+Neg(m, x) == (m - x) % m
+(* ---- shifts: the amount is clamped to the register width (PTX ISA: "shift amounts greater than the register
+   width N are clamped to N") *)
+MinN(j, k) == IF j < k THEN j ELSE k
+Shl(m, x, n) == (x * Pow2(MinN(n, Bits(m)))) % m
+Shr(m, x, n) == x \div Pow2(MinN(n, Bits(m)))
+ShrS(m, x, n) == (x \div Pow2(MinN(n, Bits(m)))) + (IF x >= (m \div 2) THEN m - (m \div Pow2(MinN(n, Bits(m)))) ELSE 0)
+(* ---- min / max *)
+MinU(x, y) == IF x <= y THEN x ELSE y
+MaxU(x, y) == IF x >= y THEN x ELSE y
+MinS(m, x, y) == IF Sx(m, x) <= Sx(m, y) THEN x ELSE y
+MaxS(m, x, y) == IF Sx(m, x) >= Sx(m, y) THEN x ELSE y
+(* ---- conversions between the 32- and the 64-bit register (truncation is GL!Lo) *)
+ZExt(x) == x
+SExt(x) == IF x >= (Beta \div 2) THEN x + (T - Beta) ELSE x
 Pack(l, h) == (h * Beta) + l
-Neg32(x) == (Beta - x) % Beta
-IsZ(x) == IF x = 0 THEN 1 ELSE 0
+(* kept for older generated text *)
+Neg32(x) == Neg(Beta, x)
+IsZ(x) == SetEq(x, 0)
 ====
